@@ -30,6 +30,9 @@ structure Sync (S : Suite) (k : Spec.Keys) (A B : HS) : Prop where
   iS : k.iS = true → KeyOk S A.s B.rs
   rE : k.rE = true → KeyOk S B.e A.re
   rS : k.rS = true → KeyOk S B.s A.rs
+  /-- no remote static is reported before it has been conveyed -/
+  niS : k.iS = false → B.rs.on = false
+  nrS : k.rS = false → A.rs.on = false
 
 namespace HS
 
@@ -113,7 +116,7 @@ theorem psk_sync (S : Suite) {k : Spec.Keys} {A B : HS} (h : Sync S k A B) (n : 
     Sync S k { A with sym := A.sym.mixKeyAndHash S key } { B with sym := B.sym.mixKeyAndHash S key } := by
   have hslotB : B.psks.getD n none = some key := by rw [← h.psks]; exact hslot
   refine ⟨by unfold pskStep; simp only [hn, ↓reduceIte, hslot], by unfold pskStep; simp only [hn, ↓reduceIte, hslotB], ?_⟩
-  exact ⟨h.ia, h.ib, by simp only [h.sym], h.isPsk, h.psks, h.iE, h.iS, h.rE, h.rS⟩
+  exact ⟨h.ia, h.ib, by simp only [h.sym], h.isPsk, h.psks, h.iE, h.iS, h.rE, h.rS, h.niS, h.nrS⟩
 
 /-- DH token: both parties derive the same chaining key and cipher key. -/
 theorem dh_sync (S : Suite) (hc : S.DhComm) (ht : S.DhTotal) {k k' : Spec.Keys} {A B : HS} (h : Sync S k A B)
@@ -130,7 +133,8 @@ theorem dh_sync (S : Suite) (hc : S.DhComm) (ht : S.DhTotal) {k k' : Spec.Keys} 
   obtain ⟨f1, f2, f3, f4⟩ := hflags
   exact ⟨h.ia, h.ib, by simp only [h.sym], h.isPsk, h.psks,
     fun x => h.iE (by rw [← f1]; exact x), fun x => h.iS (by rw [← f2]; exact x),
-    fun x => h.rE (by rw [← f3]; exact x), fun x => h.rS (by rw [← f4]; exact x)⟩
+    fun x => h.rE (by rw [← f3]; exact x), fun x => h.rS (by rw [← f4]; exact x),
+    fun x => h.niS (by rw [← f2]; exact x), fun x => h.nrS (by rw [← f4]; exact x)⟩
 
 end SnowVerif.Model.HS
 
